@@ -15,7 +15,7 @@ func ConvertConsumersFromPersisted(
 	for consumer, endpoints := range consumers {
 		output[consumer] = make(map[Endpoint]EndpointAgg)
 		for key, endpoint := range endpoints {
-			parts := strings.Split(key, EndpointDelimiter)
+			parts := strings.SplitN(key, EndpointDelimiter, 2)
 			minTime, err := sharedActions.TimestampFromStringToInt64(endpoint.MinTime)
 			if err != nil {
 				log.Error().Msgf("Error converting timestamp: %v", err)
@@ -39,7 +39,7 @@ func ConvertEndpointsFromPersisted(endpoints map[string]EndpointOutput) map[Endp
 	output := make(map[Endpoint]EndpointAgg)
 
 	for key, endpoint := range endpoints {
-		parts := strings.Split(key, EndpointDelimiter)
+		parts := strings.SplitN(key, EndpointDelimiter, 2)
 		minTime, err := sharedActions.TimestampFromStringToInt64(endpoint.MinTime)
 		if err != nil {
 			log.Error().Msgf("Error converting timestamp: %v", err)
